@@ -67,6 +67,11 @@ func (t *Term) render(strict bool) string {
 		s := t.Name + "(" + strings.Join(as, ", ") + ")"
 		if strict && t.Site.IsValid() {
 			s += fmt.Sprintf("@%d", t.Site)
+			// the invocation the call was evaluated in: two inlined invocations of one helper
+			// evaluate the same source call, but they are different call instances
+			if t.fr != nil && t.fr.Parent != nil {
+				s += "/" + framePath(t.fr)
+			}
 		}
 		return s
 	case "closure":
@@ -213,6 +218,9 @@ func (ts *Terms) compute(v ssa.Value, fr *Frame, depth int) *Term {
 			if _, isStruct := n.Underlying().(*types.Struct); isStruct {
 				return mk("param", "‹"+n.Obj().Name()+"›")
 			}
+		}
+		if n := callbackParamName(x); n != "" {
+			return mk("param", n)
 		}
 		return mk("param", x.Name())
 	case *ssa.FreeVar:
@@ -712,7 +720,7 @@ func (ts *Terms) call(x *ssa.Call, fr *Frame, depth int) *Term {
 			kinds := ts.cx.transPrimKinds(f)
 			onlyExtRead := len(kinds) == 1
 			for k := range kinds {
-				if !strings.HasPrefix(k, "ext.") || isMutatingKind(k) {
+				if !(strings.HasPrefix(k, "ext.") || strings.HasPrefix(k, "nft.") || strings.HasPrefix(k, "bank.")) || isMutatingKind(k) {
 					onlyExtRead = false
 				}
 			}
@@ -758,6 +766,25 @@ func (ts *Terms) helperInline(x *ssa.Call, fr *Frame, idx int) *Term {
 	if onChain(fr, f) {
 		return nil
 	}
+	// a function that itself touches the store or another keeper for reading is a getter
+	// and keeps its name; a composition of such calls (`tok := k.getX(..); return tok,
+	// parse(tok.F)`) is transparent - the getter calls inside it keep their names
+	for k := range ts.cx.transPrimKinds(f) {
+		if isMutatingKind(k) {
+			goto strict // a helper that also writes keeps the strict test below
+		}
+	}
+	for _, p := range ts.cx.primsOf(f) {
+		k := p.Kind
+		if strings.HasPrefix(k, "store.get") || strings.HasPrefix(k, "store.has") || strings.HasPrefix(k, "store.iter") || strings.HasPrefix(k, "store.riter") {
+			return nil
+		}
+		if (strings.HasPrefix(k, "ext.") || strings.HasPrefix(k, "bank.") || strings.HasPrefix(k, "nft.")) && !isMutatingKind(k) {
+			return nil
+		}
+	}
+	goto inline
+strict:
 	for k := range ts.cx.transPrimKinds(f) {
 		if strings.HasPrefix(k, "store.get") || strings.HasPrefix(k, "store.has") || strings.HasPrefix(k, "store.iter") || strings.HasPrefix(k, "store.riter") {
 			return nil
@@ -766,6 +793,7 @@ func (ts *Terms) helperInline(x *ssa.Call, fr *Frame, idx int) *Term {
 			return nil
 		}
 	}
+inline:
 	nfr := &Frame{Fn: f, Parent: fr, Call: x, Depth: frameDepth(fr) + 1}
 	m := map[string]*Term{}
 	// (value, ok bool): the `return zero, false` exits are failure returns too when the
@@ -1069,4 +1097,61 @@ func (ts *Terms) lenOfString(x *ssa.BinOp, fr *Frame, depth int) *Term {
 		return nil
 	}
 	return mk("bin", op, ts.of(c.Common().Args[0], fr, depth+1), mk("const", `""`))
+}
+
+// callbackParamName: the parameters of a service callback (the ResponseCallback /
+// StateCallback shapes) are named by position, so that rules about the oracle and
+// random callbacks do not depend on how an implementation spells them.
+func callbackParamName(x *ssa.Parameter) string {
+	fn := x.Parent()
+	if fn == nil || !isIrismodFunc(fn) {
+		return ""
+	}
+	sig := fn.Signature
+	idx := -1
+	for i, p := range fn.Params {
+		if p == x {
+			idx = i
+		}
+	}
+	if sig.Recv() != nil {
+		idx--
+	}
+	ps := sig.Params()
+	if idx < 1 || idx >= ps.Len() || ps.Len() < 3 || !isCtxType(ps.At(0).Type()) || !typeIs(ps.At(1).Type(), "github.com/cometbft/cometbft/libs/bytes", "HexBytes") {
+		return ""
+	}
+	isStrSlice := func(t types.Type) bool {
+		sl, ok := t.Underlying().(*types.Slice)
+		if !ok {
+			return false
+		}
+		b, ok := sl.Elem().Underlying().(*types.Basic)
+		return ok && b.Kind() == types.String
+	}
+	isStr := func(t types.Type) bool {
+		b, ok := t.Underlying().(*types.Basic)
+		return ok && b.Kind() == types.String
+	}
+	switch {
+	case ps.Len() == 4 && isStrSlice(ps.At(2).Type()) && isErrorType(ps.At(3).Type()):
+		return []string{"", "requestContextID", "responseOutput", "err"}[idx]
+	case ps.Len() == 3 && isStr(ps.At(2).Type()):
+		return []string{"", "requestContextID", "cause"}[idx]
+	}
+	return ""
+}
+
+// framePath identifies an activation by the call sites that lead to it.
+func framePath(fr *Frame) string {
+	var parts []string
+	for f := fr; f != nil; f = f.Parent {
+		switch {
+		case f.Call != nil:
+			parts = append(parts, fmt.Sprint(int(f.Call.Pos())))
+		case f.MC != nil:
+			parts = append(parts, fmt.Sprintf("c%d", int(f.MC.Pos())))
+		}
+	}
+	return strings.Join(parts, "<")
 }
